@@ -977,6 +977,7 @@ func gen(seed uint64, tier string) {
 	genTwins(out, vproto.NewRng(seed^0x7477), tier)
 	genInterleaved(out, vproto.NewRng(seed^0x696c), tier)
 	genCloseParallels(out, vproto.NewRng(seed^0x6370), tier)
+	genConcurrentSR(out, vproto.NewRng(seed^0x6373), tier) // phase 4: cc lines for the constructors that store into the shared *SR per call
 	names := []string{"longlat", "merc", "lcc", "aea", "eqdc", "tmerc", "utm", "krovak"}
 	for _, name := range names {
 		for i := 0; i < nParam; i++ {
